@@ -67,6 +67,7 @@ fn many_maps_strategy(tier: Tier, _index: u64) -> BoxedStrategy<History> {
                 ops: pre,
                 obs: Obs::default(),
                 excluded: 0,
+                quiet_prefix: 0,
             }
         })
         .boxed()
@@ -161,6 +162,7 @@ fn strategy(tier: Tier, index: u64) -> BoxedStrategy<History> {
                     ..Default::default()
                 },
                 excluded: ex,
+                quiet_prefix: 0,
             }
         })
         .boxed()
